@@ -1,6 +1,822 @@
-//! C20 — not implemented yet.
+//! C20 — IPC sidecars are invisible and safe to build concurrently.
+//!
+//! `QE_IPC_CACHE` is read once per process, so every configuration is a
+//! sub-process: `check --worker c20 <jobfile>` with the variable set by the
+//! parent. Two checks:
+//!
+//! * `sidecar_configs` — one generated Parquet table (1..3 files, several row
+//!   groups, dictionary-eligible / nullable / wide string columns, optional
+//!   dictionary fallback pages), a list of queries; answered by four
+//!   processes in sequence on the same directory: `=0` (the reference),
+//!   `=1` on a cold directory (builds), `=1` again (reuses), unset (uses what
+//!   exists). Every answer must equal the `=0` answer; after the first `=1`
+//!   process the sidecar directory must be complete (stamp present, one IPC
+//!   file per row group, identical cell-for-cell to the Parquet row group as
+//!   read by the harness with the parquet crate).
+//! * `sidecar_races` — on a cold directory 1..8 builder processes (`=1`) and
+//!   1..4 reader processes (unset; they loop the queries) are released
+//!   together by a go-file. Every `Ok` answer of every process must equal the
+//!   `=0` answer; afterwards the sidecar directory must be complete and a
+//!   fresh reader must agree. A reader/builder *error* during the race is
+//!   recorded as a label (the property forbids partial observations and wrong
+//!   answers, an error is neither), a differing answer is a violation.
+//!
+//! LIMIT (stated): the harness does not own the OS schedule between
+//! processes. `sidecar_races` is repeated-race exploration: it samples
+//! schedules, it does not enumerate them; overlap is measured (staging
+//! directories seen by a polling monitor) and reported, not forced.
 use super::Property;
+use crate::data::*;
+use crate::engine::*;
+use crate::runner::*;
+use proptest::prelude::*;
+use query_engine::ExecutionContext;
+use serde::{Deserialize, Serialize};
+use std::path::{Path, PathBuf};
+
+// ---------------------------------------------------------------------------
+// table
+// ---------------------------------------------------------------------------
+
+#[derive(Clone, Debug, Serialize, Deserialize)]
+pub struct TableSpec {
+    pub n_rows: usize,
+    pub n_files: usize,
+    pub rg_size: usize,
+    /// cardinality of the dictionary-eligible column d (1..)
+    pub d_card: u32,
+    pub d_null_pct: u32,
+    /// distinct values of w: 0 = every row distinct (wide), else that many
+    pub w_card: u32,
+    pub dictionary: bool,
+    /// parquet dictionary page size limit (small => fallback to plain pages mid-chunk)
+    pub dict_page_limit: usize,
+    pub seed: u64,
+}
+
+fn mix(a: u64, b: u64) -> u64 {
+    let mut x = a ^ b.wrapping_mul(0x9E3779B97F4A7C15);
+    x ^= x >> 30;
+    x = x.wrapping_mul(0xBF58476D1CE4E5B9);
+    x ^= x >> 27;
+    x = x.wrapping_mul(0x94D049BB133111EB);
+    x ^= x >> 31;
+    x
+}
+
+fn cols() -> Vec<Column> {
+    vec![
+        Column { name: "k".into(), ty: ColType::Int },
+        Column { name: "d".into(), ty: ColType::Str },
+        Column { name: "d2".into(), ty: ColType::Str },
+        Column { name: "w".into(), ty: ColType::Str },
+        Column { name: "v".into(), ty: ColType::Int },
+        Column { name: "f".into(), ty: ColType::Double },
+    ]
+}
+
+fn table_rows(t: &TableSpec) -> Rows {
+    (0..t.n_rows)
+        .map(|i| {
+            let h = mix(t.seed, i as u64);
+            let d = if (h % 100) < t.d_null_pct as u64 {
+                Value::Null
+            } else {
+                Value::Str(format!("d{}", (h >> 8) % t.d_card.max(1) as u64))
+            };
+            let d2 = Value::Str(format!("e{}", (h >> 16) % 3));
+            let w = if t.w_card == 0 {
+                Value::Str(format!("w{:06}-{:08x}-padding-to-make-it-wide", i, (h >> 20) as u32))
+            } else {
+                Value::Str(format!("w{:04}", (h >> 24) % t.w_card as u64))
+            };
+            let v = if (h >> 32) % 5 == 0 { Value::Null } else { Value::Int(((h >> 36) % 50) as i64) };
+            let f = Value::Double((((h >> 44) % 17) as i64 - 8) as f64 * 0.25);
+            vec![Value::Int(i as i64), d, d2, w, v, f]
+        })
+        .collect()
+}
+
+fn write_table(t: &TableSpec, dir: &Path) -> Vec<PathBuf> {
+    use parquet::arrow::ArrowWriter;
+    use parquet::file::properties::WriterProperties;
+    std::fs::create_dir_all(dir).unwrap();
+    let rows = table_rows(t);
+    let nf = t.n_files.clamp(1, 4);
+    let per = rows.len().div_ceil(nf).max(1);
+    let mut out = vec![];
+    for (fi, chunk) in rows.chunks(per).enumerate() {
+        let props = WriterProperties::builder()
+            .set_max_row_group_size(t.rg_size.max(1))
+            .set_dictionary_enabled(t.dictionary)
+            .set_dictionary_page_size_limit(t.dict_page_limit.max(16))
+            .build();
+        let p = dir.join(format!("part-{:03}.parquet", fi));
+        let batch = rows_to_batch(&cols(), chunk);
+        let mut w = ArrowWriter::try_new(std::fs::File::create(&p).unwrap(), batch.schema(), Some(props)).unwrap();
+        w.write(&batch).unwrap();
+        w.close().unwrap();
+        out.push(p);
+    }
+    out
+}
+
+// ---------------------------------------------------------------------------
+// queries
+// ---------------------------------------------------------------------------
+
+#[derive(Clone, Debug, Serialize, Deserialize)]
+pub struct Q {
+    pub kind: u8,
+    pub p1: u16,
+    pub p2: u16,
+}
+
+pub const N_KINDS: u8 = 12;
+
+fn sql_of(q: &Q, t: &TableSpec) -> String {
+    let n = t.n_rows.max(1) as u64;
+    let lo = (q.p1 as u64 * n) >> 16;
+    let hi = lo + 1 + ((q.p2 as u64 * n) >> 16);
+    let dval = format!("d{}", q.p1 as u32 % t.d_card.max(1));
+    match q.kind % N_KINDS {
+        0 => "SELECT * FROM t".into(),
+        1 => "SELECT k, d FROM t".into(),
+        2 => "SELECT COUNT(*) FROM t".into(),
+        3 => "SELECT d, COUNT(*), COUNT(v), MIN(k) FROM t GROUP BY d".into(),
+        4 => "SELECT w, COUNT(*) FROM t GROUP BY w".into(),
+        5 => format!("SELECT k, w FROM t WHERE k >= {} AND k < {}", lo, hi),
+        6 => format!("SELECT k, v FROM t WHERE d = '{}'", dval),
+        7 => "SELECT MIN(k), MAX(k), SUM(f), COUNT(v) FROM t".into(),
+        8 => "SELECT d, w FROM t WHERE v IS NULL".into(),
+        9 => "SELECT d, d2, COUNT(*) FROM t GROUP BY d, d2".into(),
+        10 => format!("SELECT d2, SUM(f), MAX(v) FROM t WHERE k < {} GROUP BY d2", hi),
+        _ => format!("SELECT w, d FROM t WHERE d2 = 'e1' AND k >= {}", lo),
+    }
+}
+
+#[derive(Clone, Debug, Serialize, Deserialize, PartialEq)]
+pub struct Digest {
+    pub n: usize,
+    pub hash: u64,
+    pub head: Rows,
+}
+
+fn digest(rows: &Rows) -> Digest {
+    let mut r = rows.clone();
+    canon_sort(&mut r);
+    let mut h: u64 = 0xcbf29ce484222325;
+    for row in &r {
+        for v in row {
+            for b in fmt_value(v).as_bytes() {
+                h ^= *b as u64;
+                h = h.wrapping_mul(0x100000001b3);
+            }
+            h = h.wrapping_mul(31).wrapping_add(7);
+        }
+        h = h.rotate_left(5) ^ 0x55;
+    }
+    Digest { n: r.len(), hash: h, head: r.into_iter().take(6).collect() }
+}
+
+// ---------------------------------------------------------------------------
+// worker
+// ---------------------------------------------------------------------------
+
+#[derive(Clone, Debug, Serialize, Deserialize)]
+pub struct Job {
+    pub table_dir: PathBuf,
+    pub table: TableSpec,
+    pub out: PathBuf,
+    pub queries: Vec<Q>,
+    pub force_big: bool,
+    /// write `<out>.ready`, then wait until this file exists
+    pub go: Option<PathBuf>,
+    /// loop the query list until this file exists (or max_iters); None = once
+    pub until: Option<PathBuf>,
+    pub max_iters: u32,
+}
+
+#[derive(Clone, Debug, Serialize, Deserialize)]
+pub struct Ans {
+    pub q: usize,
+    pub iter: u32,
+    pub res: Result<Digest, String>,
+    /// a `.building` staging directory existed right before or after this query
+    pub staging_seen: bool,
+}
+
+fn staging_dirs(dir: &Path) -> usize {
+    std::fs::read_dir(dir)
+        .map(|rd| {
+            rd.filter_map(|e| e.ok())
+                .filter(|e| e.file_name().to_string_lossy().ends_with(".building"))
+                .count()
+        })
+        .unwrap_or(0)
+}
+
+pub fn worker(args: &[String]) {
+    let job: Job = serde_json::from_str(&std::fs::read_to_string(&args[0]).expect("job file")).expect("job json");
+    query_engine::verif_hooks::set_force_big(job.force_big);
+    let mut answers: Vec<Ans> = vec![];
+    let mut ctx = ExecutionContext::new();
+    let reg = ctx.register_parquet("t", &job.table_dir).map_err(|e| e.to_string());
+    if let Some(go) = &job.go {
+        std::fs::write(format!("{}.ready", job.out.display()), b"1").unwrap();
+        let t0 = std::time::Instant::now();
+        while !go.exists() && t0.elapsed().as_secs() < 60 {
+            std::hint::spin_loop();
+        }
+    }
+    if let Err(e) = reg {
+        answers.push(Ans { q: usize::MAX, iter: 0, res: Err(format!("register: {}", e)), staging_seen: false });
+    } else {
+        let mut iter = 0;
+        loop {
+            for (qi, q) in job.queries.iter().enumerate() {
+                let before = staging_dirs(&job.table_dir) > 0;
+                let res = run_sql(&ctx, &sql_of(q, &job.table)).map(|r| digest(&r));
+                let after = staging_dirs(&job.table_dir) > 0;
+                answers.push(Ans { q: qi, iter, res, staging_seen: before || after });
+            }
+            iter += 1;
+            match &job.until {
+                None => break,
+                Some(f) => {
+                    if f.exists() || iter >= job.max_iters {
+                        break;
+                    }
+                }
+            }
+        }
+    }
+    let tmp = format!("{}.tmp", job.out.display());
+    std::fs::write(&tmp, serde_json::to_string(&answers).unwrap()).unwrap();
+    std::fs::rename(&tmp, &job.out).unwrap();
+}
+
+// ---------------------------------------------------------------------------
+// parent helpers
+// ---------------------------------------------------------------------------
+
+#[derive(Clone, Copy, PartialEq, Debug)]
+enum Cfg {
+    Off,
+    Auto,
+    Build,
+}
+impl Cfg {
+    fn name(self) -> &'static str {
+        match self {
+            Cfg::Off => "QE_IPC_CACHE=0",
+            Cfg::Auto => "QE_IPC_CACHE unset",
+            Cfg::Build => "QE_IPC_CACHE=1",
+        }
+    }
+}
+
+fn spawn(job: &Job, cfg: Cfg) -> std::process::Child {
+    let jobfile = PathBuf::from(format!("{}.job", job.out.display()));
+    std::fs::write(&jobfile, serde_json::to_string(job).unwrap()).unwrap();
+    let mut cmd = std::process::Command::new(std::env::current_exe().unwrap());
+    cmd.args(["--worker", "c20", jobfile.to_str().unwrap()]);
+    match cfg {
+        Cfg::Off => cmd.env("QE_IPC_CACHE", "0"),
+        Cfg::Auto => cmd.env_remove("QE_IPC_CACHE"),
+        Cfg::Build => cmd.env("QE_IPC_CACHE", "1"),
+    };
+    cmd.env_remove("QE_IPC_SLICE").env_remove("QE_IPC_WILLNEED").env("RAYON_NUM_THREADS", "4");
+    cmd.stdout(std::process::Stdio::null()).stderr(std::process::Stdio::null());
+    cmd.spawn().expect("spawn worker")
+}
+
+fn collect(job: &Job, mut child: std::process::Child) -> Result<Vec<Ans>, String> {
+    let st = child.wait().map_err(|e| e.to_string())?;
+    match std::fs::read_to_string(&job.out) {
+        Ok(s) => serde_json::from_str(&s).map_err(|e| format!("worker output: {}", e)),
+        Err(_) => Err(format!("worker died ({}) without a result", st)),
+    }
+}
+
+fn run_once(ctl: &Path, tag: &str, table_dir: &Path, table: &TableSpec, queries: &[Q], force_big: bool, cfg: Cfg) -> Result<Vec<Ans>, String> {
+    let job = Job {
+        table_dir: table_dir.to_path_buf(),
+        table: table.clone(),
+        out: ctl.join(format!("{}.out", tag)),
+        queries: queries.to_vec(),
+        force_big,
+        go: None,
+        until: None,
+        max_iters: 1,
+    };
+    let child = spawn(&job, cfg);
+    collect(&job, child)
+}
+
+/// error text without paths and numbers (for labels)
+fn error_class(e: &str) -> String {
+    let mut out = String::new();
+    for w in e.split_whitespace() {
+        if w.contains('/') {
+            out.push_str("<path> ");
+        } else if w.chars().any(|c| c.is_ascii_digit()) {
+            out.push_str("<n> ");
+        } else {
+            out.push_str(w);
+            out.push(' ');
+        }
+    }
+    out.chars().take(110).collect()
+}
+
+/// compare one process's answers with the reference; Err(msg) = differing answer
+fn compare(
+    who: &str,
+    reference: &[Ans],
+    got: &[Ans],
+    queries: &[Q],
+    table: &TableSpec,
+    errors_are_violations: bool,
+    obs: &mut Obs,
+) -> Result<(), String> {
+    for a in got {
+        if a.q == usize::MAX {
+            if errors_are_violations {
+                return Err(format!("{}: {:?}", who, a.res));
+            }
+            obs.label(format!("error during race: {}", who.split('#').next().unwrap_or(who)));
+            continue;
+        }
+        let r = match reference.iter().find(|r| r.q == a.q) {
+            Some(r) => r,
+            None => continue,
+        };
+        match (&r.res, &a.res) {
+            (Err(_), _) => {
+                obs.label("query fails with QE_IPC_CACHE=0 too (nothing to compare)");
+            }
+            (Ok(_), Err(e)) => {
+                if errors_are_violations {
+                    return Err(format!(
+                        "{}: `{}` failed: {}\nwith QE_IPC_CACHE=0 it answers {} rows",
+                        who,
+                        sql_of(&queries[a.q], table),
+                        e,
+                        r.res.as_ref().unwrap().n
+                    ));
+                }
+                obs.label(format!("error during race: {}: {}", who.split('#').next().unwrap_or(who), error_class(e)));
+            }
+            (Ok(want), Ok(got)) => {
+                if want != got {
+                    return Err(format!(
+                        "{} (iteration {}): `{}` answered {} rows (digest {:016x}), first rows\n{}QE_IPC_CACHE=0 answers {} rows (digest {:016x}), first rows\n{}",
+                        who,
+                        a.iter,
+                        sql_of(&queries[a.q], table),
+                        got.n,
+                        got.hash,
+                        fmt_rows(&got.head, 6),
+                        want.n,
+                        want.hash,
+                        fmt_rows(&want.head, 6)
+                    ));
+                }
+            }
+        }
+    }
+    Ok(())
+}
+
+/// After building: every sidecar directory that exists is complete and holds
+/// exactly its file's row groups. A sidecar is built only for a file some
+/// query actually reads (a pruned file gets none), so `require_all` — every
+/// file must have one — is demanded only when an unfiltered scan was among
+/// the queries. Returns the number of complete sidecars.
+fn sidecars_complete(files: &[PathBuf], require_all: bool) -> Result<usize, String> {
+    use parquet::arrow::arrow_reader::ParquetRecordBatchReaderBuilder;
+    let mut complete = 0;
+    for f in files {
+        let mut name = f.file_name().unwrap().to_os_string();
+        name.push(".qeipc");
+        let dir = f.with_file_name(name);
+        if !require_all && !dir.exists() {
+            continue;
+        }
+        let stamp = std::fs::read_to_string(dir.join(".complete"))
+            .map_err(|e| format!("{}: no .complete stamp after the build ({})", dir.display(), e))?;
+        let len = std::fs::metadata(f).unwrap().len();
+        let fields: Vec<&str> = stamp.split(':').collect();
+        if fields.len() >= 2 {
+            if let Ok(l) = fields[1].parse::<u64>() {
+                if l != len {
+                    return Err(format!("{}: stamp {:?} does not carry the source length {}", dir.display(), stamp, len));
+                }
+            }
+        }
+        let b = ParquetRecordBatchReaderBuilder::try_new(std::fs::File::open(f).unwrap()).unwrap();
+        let n_rg = b.metadata().num_row_groups();
+        for rg in 0..n_rg {
+            let want: Rows = {
+                let b = ParquetRecordBatchReaderBuilder::try_new(std::fs::File::open(f).unwrap()).unwrap();
+                let batches: Vec<_> = b.with_row_groups(vec![rg]).build().unwrap().map(|x| x.unwrap()).collect();
+                batches_to_rows(&batches)
+            };
+            let p = dir.join(format!("rg_{:05}.arrow", rg));
+            let file = std::fs::File::open(&p).map_err(|e| format!("{}: missing after the build ({})", p.display(), e))?;
+            let reader = arrow::ipc::reader::FileReader::try_new(file, None)
+                .map_err(|e| format!("{}: not a readable IPC file: {}", p.display(), e))?;
+            let mut batches = vec![];
+            for b in reader {
+                batches.push(b.map_err(|e| format!("{}: {}", p.display(), e))?);
+            }
+            let got = batches_to_rows(&batches);
+            if !rows_eq(&got, &want, 0.0) {
+                return Err(format!(
+                    "{} holds {} rows that differ from row group {} of {} ({} rows)",
+                    p.display(),
+                    got.len(),
+                    rg,
+                    f.display(),
+                    want.len()
+                ));
+            }
+        }
+        let extra = std::fs::read_dir(&dir)
+            .unwrap()
+            .filter_map(|e| e.ok())
+            .filter(|e| {
+                let n = e.file_name().to_string_lossy().to_string();
+                n.starts_with("rg_") && n[3..8].parse::<usize>().map(|i| i >= n_rg).unwrap_or(false)
+            })
+            .count();
+        if extra > 0 {
+            return Err(format!("{} has {} row-group files beyond the source's {}", dir.display(), extra, n_rg));
+        }
+        complete += 1;
+    }
+    Ok(complete)
+}
+
+/// an unfiltered scan succeeded in the reference => every file is read by every process
+fn has_full_scan(queries: &[Q], reference: &[Ans]) -> bool {
+    queries
+        .iter()
+        .enumerate()
+        .any(|(i, q)| q.kind % N_KINDS == 0 && reference.iter().any(|a| a.q == i && a.res.is_ok()))
+}
+
+// ---------------------------------------------------------------------------
+// strategies
+// ---------------------------------------------------------------------------
+
+fn table_strategy(small_weight: u32, big_weight: u32, big: std::ops::Range<usize>) -> impl Strategy<Value = TableSpec> {
+    let shape = prop_oneof![
+        small_weight => (1usize..40, 1usize..4, prop_oneof![Just(7usize), Just(64), Just(1usize << 20)]),
+        small_weight => (40usize..700, 1usize..4, prop_oneof![Just(7usize), Just(64), Just(1000), Just(1usize << 20)]),
+        // big: row groups can exceed 4096 distinct strings (dictionary demotion)
+        big_weight => (big, 1usize..3, prop_oneof![Just(1000usize), Just(5000), Just(1usize << 20)]),
+    ];
+    (
+        shape,
+        1u32..7,
+        prop_oneof![Just(0u32), Just(10), Just(50), Just(100)],
+        prop_oneof![2 => Just(0u32), 1 => Just(3u32), 1 => Just(40u32)],
+        proptest::bool::weighted(0.85),
+        prop_oneof![1 => Just(64usize), 3 => Just(1usize << 20)],
+        any::<u64>(),
+    )
+        .prop_map(|((n_rows, n_files, rg_size), d_card, d_null_pct, w_card, dictionary, dict_page_limit, seed)| TableSpec {
+            n_rows,
+            n_files,
+            rg_size,
+            d_card,
+            d_null_pct,
+            w_card,
+            dictionary,
+            dict_page_limit,
+            seed,
+        })
+}
+
+/// usually begins with an unfiltered scan (then every file is read and must get a sidecar)
+fn queries_strategy(lo: usize, hi: usize) -> impl Strategy<Value = Vec<Q>> {
+    (
+        proptest::bool::weighted(0.8),
+        proptest::collection::vec((0u8..N_KINDS, any::<u16>(), any::<u16>()).prop_map(|(kind, p1, p2)| Q { kind, p1, p2 }), lo..hi),
+    )
+        .prop_map(|(scan_first, mut qs)| {
+            if scan_first {
+                qs.insert(0, Q { kind: 0, p1: 0, p2: 0 });
+            }
+            qs
+        })
+}
+
+fn table_labels(t: &TableSpec, files: &[PathBuf], obs: &mut Obs) {
+    use parquet::arrow::arrow_reader::ParquetRecordBatchReaderBuilder;
+    let mut rgs = 0;
+    for f in files {
+        rgs += ParquetRecordBatchReaderBuilder::try_new(std::fs::File::open(f).unwrap()).unwrap().metadata().num_row_groups();
+    }
+    if files.len() > 1 {
+        obs.label("multi-file");
+    }
+    if rgs > files.len() {
+        obs.label("multi-row-group");
+    }
+    if t.w_card == 0 && t.rg_size > 4096 && t.n_rows / t.n_files.max(1) > 4096 {
+        obs.label("wide dictionary (>4096 values in a row group)");
+    }
+    if !t.dictionary {
+        obs.label("no dictionary encoding");
+    }
+    if t.dict_page_limit < 1000 && t.dictionary {
+        obs.label("dictionary fallback pages");
+    }
+    if t.d_null_pct == 100 {
+        obs.label("all-NULL dict column");
+    }
+}
+
+// ---------------------------------------------------------------------------
+// check (a): configurations
+// ---------------------------------------------------------------------------
+
+#[derive(Clone, Debug, Serialize, Deserialize)]
+pub struct ConfigCase {
+    pub table: TableSpec,
+    pub queries: Vec<Q>,
+    pub force_big: bool,
+}
+
+pub struct SidecarConfigs;
+impl Check for SidecarConfigs {
+    type Case = ConfigCase;
+    fn name(&self) -> &'static str {
+        "sidecar_configs"
+    }
+    fn rule(&self) -> &'static str {
+        "the table has >=2 row groups, at least two queries succeed with QE_IPC_CACHE=0, and the =1 process left a complete sidecar that the later processes could use"
+    }
+    fn cases(&self, tier: Tier) -> u32 {
+        tier.pick(40, 1000)
+    }
+    fn workers(&self, _tier: Tier) -> usize {
+        8
+    }
+    fn max_shrink_iters(&self) -> u32 {
+        40
+    }
+    fn strategy(&self, _tier: Tier) -> BoxedStrategy<ConfigCase> {
+        (table_strategy(6, 3, 4200..24_000), queries_strategy(3, 8), proptest::bool::weighted(0.3))
+            .prop_map(|(table, queries, force_big)| ConfigCase { table, queries, force_big })
+            .boxed()
+    }
+    fn test(&self, c: &ConfigCase, obs: &mut Obs) -> Verdict {
+        let tmp = TempDir::new("c20a");
+        let tdir = tmp.path().join("t");
+        let ctl = tmp.path().join("ctl");
+        std::fs::create_dir_all(&ctl).unwrap();
+        let files = write_table(&c.table, &tdir);
+        table_labels(&c.table, &files, obs);
+        let run = |tag: &str, cfg: Cfg| run_once(&ctl, tag, &tdir, &c.table, &c.queries, c.force_big, cfg);
+        let reference = match run("off", Cfg::Off) {
+            Ok(a) => a,
+            Err(e) => return Verdict::Fail(format!("[QE_IPC_CACHE=0] {}", e)),
+        };
+        if std::fs::read_dir(&tdir).unwrap().filter_map(|e| e.ok()).any(|e| e.file_name().to_string_lossy().contains(".qeipc")) {
+            return Verdict::Fail("QE_IPC_CACHE=0 created a sidecar directory".into());
+        }
+        // unset on a cold directory must not build anything either
+        let cold_auto = match run("auto-cold", Cfg::Auto) {
+            Ok(a) => a,
+            Err(e) => return Verdict::Fail(format!("[unset, cold] {}", e)),
+        };
+        if let Err(m) = compare("QE_IPC_CACHE unset on a cold directory", &reference, &cold_auto, &c.queries, &c.table, true, obs) {
+            return Verdict::Fail(m);
+        }
+        if std::fs::read_dir(&tdir).unwrap().filter_map(|e| e.ok()).any(|e| e.file_name().to_string_lossy().contains(".qeipc")) {
+            return Verdict::Fail("QE_IPC_CACHE unset built a sidecar directory (documented: never builds)".into());
+        }
+        let mut built = 0;
+        for (tag, cfg, who) in [
+            ("build-fresh", Cfg::Build, "QE_IPC_CACHE=1 on a cold directory"),
+            ("build-reuse", Cfg::Build, "QE_IPC_CACHE=1 reusing the sidecars"),
+            ("auto-reuse", Cfg::Auto, "QE_IPC_CACHE unset after a build"),
+        ] {
+            let got = match run(tag, cfg) {
+                Ok(a) => a,
+                Err(e) => return Verdict::Fail(format!("[{}] {}", who, e)),
+            };
+            if let Err(m) = compare(who, &reference, &got, &c.queries, &c.table, true, obs) {
+                return Verdict::Fail(m);
+            }
+            if tag == "build-fresh" {
+                match sidecars_complete(&files, has_full_scan(&c.queries, &reference)) {
+                    Err(m) => return Verdict::Fail(format!("after `{}`: {}", who, m)),
+                    Ok(n) => {
+                        built = n;
+                        if n == files.len() {
+                            obs.label("every file got a sidecar");
+                        } else {
+                            obs.label("some file got no sidecar (no query read it)");
+                        }
+                    }
+                }
+            }
+        }
+        let ok_queries = reference.iter().filter(|a| a.res.is_ok()).count();
+        let multi_rg = {
+            use parquet::arrow::arrow_reader::ParquetRecordBatchReaderBuilder;
+            files
+                .iter()
+                .map(|f| ParquetRecordBatchReaderBuilder::try_new(std::fs::File::open(f).unwrap()).unwrap().metadata().num_row_groups())
+                .sum::<usize>()
+                >= 2
+        };
+        obs.nontrivial(multi_rg && ok_queries >= 2 && built >= 1);
+        Verdict::Pass
+    }
+}
+
+// ---------------------------------------------------------------------------
+// check (b): races
+// ---------------------------------------------------------------------------
+
+#[derive(Clone, Debug, Serialize, Deserialize)]
+pub struct RaceCase {
+    pub table: TableSpec,
+    pub queries: Vec<Q>,
+    pub builders: usize,
+    pub readers: usize,
+    pub reader_iters: u32,
+    pub force_big: bool,
+}
+
+pub struct SidecarRaces;
+impl Check for SidecarRaces {
+    type Case = RaceCase;
+    fn name(&self) -> &'static str {
+        "sidecar_races"
+    }
+    fn rule(&self) -> &'static str {
+        ">=2 builder processes had staging directories at the same time (seen by the polling monitor) and a reader answered a query while a staging directory existed"
+    }
+    fn cases(&self, tier: Tier) -> u32 {
+        tier.pick(20, 500)
+    }
+    fn workers(&self, _tier: Tier) -> usize {
+        2
+    }
+    fn max_shrink_iters(&self) -> u32 {
+        12
+    }
+    fn strategy(&self, _tier: Tier) -> BoxedStrategy<RaceCase> {
+        (
+            // big tables only: the build must take long enough to overlap
+            table_strategy(1, 30, 12_000..40_000),
+            queries_strategy(2, 5),
+            prop_oneof![1 => 1usize..3, 6 => 3usize..9],
+            1usize..5,
+            2u32..6,
+            proptest::bool::weighted(0.3),
+        )
+            .prop_map(|(table, queries, builders, readers, reader_iters, force_big)| RaceCase {
+                table,
+                queries,
+                builders,
+                readers,
+                reader_iters,
+                force_big,
+            })
+            .boxed()
+    }
+    fn test(&self, c: &RaceCase, obs: &mut Obs) -> Verdict {
+        let tmp = TempDir::new("c20b");
+        let tdir = tmp.path().join("t");
+        let ctl = tmp.path().join("ctl");
+        std::fs::create_dir_all(&ctl).unwrap();
+        let files = write_table(&c.table, &tdir);
+        table_labels(&c.table, &files, obs);
+        let reference = match run_once(&ctl, "off", &tdir, &c.table, &c.queries, c.force_big, Cfg::Off) {
+            Ok(a) => a,
+            Err(e) => return Verdict::Fail(format!("[QE_IPC_CACHE=0] {}", e)),
+        };
+        let go = ctl.join("go");
+        let done = ctl.join("done");
+        let mk = |tag: String, until: Option<PathBuf>| Job {
+            table_dir: tdir.clone(),
+            table: c.table.clone(),
+            out: ctl.join(format!("{}.out", tag)),
+            queries: c.queries.clone(),
+            force_big: c.force_big,
+            go: Some(go.clone()),
+            until,
+            max_iters: c.reader_iters.max(1) * 50,
+        };
+        let mut builders = vec![];
+        for i in 0..c.builders.clamp(1, 8) {
+            let j = mk(format!("builder{}", i), None);
+            let ch = spawn(&j, Cfg::Build);
+            builders.push((j, ch));
+        }
+        let mut readers = vec![];
+        for i in 0..c.readers.clamp(1, 4) {
+            let j = mk(format!("reader{}", i), Some(done.clone()));
+            let ch = spawn(&j, Cfg::Auto);
+            readers.push((j, ch));
+        }
+        // wait until every process is initialised, then release them together
+        let t0 = std::time::Instant::now();
+        loop {
+            let ready = builders.iter().map(|(j, _)| j).chain(readers.iter().map(|(j, _)| j)).all(|j| PathBuf::from(format!("{}.ready", j.out.display())).exists());
+            if ready || t0.elapsed().as_secs() > 90 {
+                break;
+            }
+            std::thread::sleep(std::time::Duration::from_millis(2));
+        }
+        // monitor: how many staging directories exist at once
+        let stop = std::sync::Arc::new(std::sync::atomic::AtomicBool::new(false));
+        let max_staging = std::sync::Arc::new(std::sync::atomic::AtomicUsize::new(0));
+        let mon = {
+            let (stop, max_staging, tdir) = (stop.clone(), max_staging.clone(), tdir.clone());
+            std::thread::spawn(move || {
+                while !stop.load(std::sync::atomic::Ordering::SeqCst) {
+                    let n = staging_dirs(&tdir);
+                    max_staging.fetch_max(n, std::sync::atomic::Ordering::SeqCst);
+                    std::thread::yield_now();
+                }
+            })
+        };
+        std::fs::write(&go, b"1").unwrap();
+        let mut results: Vec<(String, Result<Vec<Ans>, String>)> = vec![];
+        for (i, (j, ch)) in builders.into_iter().enumerate() {
+            results.push((format!("builder#{}", i), collect(&j, ch)));
+        }
+        std::fs::write(&done, b"1").unwrap();
+        for (i, (j, ch)) in readers.into_iter().enumerate() {
+            results.push((format!("reader#{}", i), collect(&j, ch)));
+        }
+        stop.store(true, std::sync::atomic::Ordering::SeqCst);
+        let _ = mon.join();
+
+        let mut reader_during_build = false;
+        for (who, r) in &results {
+            let answers = match r {
+                Ok(a) => a,
+                Err(e) => {
+                    // a crashed process is not an answer; record it
+                    obs.label(format!("process died during race: {} ({})", who.split('#').next().unwrap(), e.chars().take(40).collect::<String>()));
+                    continue;
+                }
+            };
+            if who.starts_with("reader") && answers.iter().any(|a| a.staging_seen && a.res.is_ok()) {
+                reader_during_build = true;
+            }
+            if let Err(m) = compare(who, &reference, answers, &c.queries, &c.table, false, obs) {
+                return Verdict::Fail(format!(
+                    "race of {} builders and {} readers: {}",
+                    c.builders, c.readers, m
+                ));
+            }
+        }
+        let leftovers = staging_dirs(&tdir);
+        if leftovers > 0 {
+            obs.label("staging directory left behind after the race");
+        }
+        if let Err(m) = sidecars_complete(&files, has_full_scan(&c.queries, &reference)) {
+            return Verdict::Fail(format!("after a race of {} builders and {} readers: {}", c.builders, c.readers, m));
+        }
+        match run_once(&ctl, "after", &tdir, &c.table, &c.queries, c.force_big, Cfg::Auto) {
+            Ok(a) => {
+                if let Err(m) = compare("QE_IPC_CACHE unset after the race", &reference, &a, &c.queries, &c.table, true, obs) {
+                    return Verdict::Fail(m);
+                }
+            }
+            Err(e) => return Verdict::Fail(format!("[unset after the race] {}", e)),
+        }
+        let ms = max_staging.load(std::sync::atomic::Ordering::SeqCst);
+        obs.label(format!("max simultaneous staging dirs={}", ms.min(4)));
+        if reader_during_build {
+            obs.label("reader answered during a build");
+        }
+        obs.nontrivial(ms >= 2 && reader_during_build);
+        // schedules differ between runs of the same case: distinctness by case only
+        Verdict::Pass
+    }
+}
 
 pub fn property() -> Property {
-    Property { id: "C20", level: "exploration", assumptions: &[], checks: vec![] }
+    Property {
+        id: "C20",
+        level: "exploration",
+        assumptions: &[
+            "LIMIT: cross-process schedules are sampled by repeated races, not controlled; overlap is measured (staging directories seen while polling) and reported",
+            "an error answer during a race is recorded, not counted as a violation (the property forbids wrong answers and partial observations); outside races an error that only appears with sidecars on is a violation",
+            "the reference answer is the same query in a QE_IPC_CACHE=0 process on the same files (differential; absolute correctness of the Parquet path belongs to C04/C19)",
+        ],
+        checks: vec![Box::new(SidecarConfigs), Box::new(SidecarRaces)],
+    }
 }
